@@ -291,4 +291,32 @@ def ref_frame_assign_series(assign, value, fill_value, result):
     return True
 
 
-REFS = dict(ref_frame_assign_series=ref_frame_assign_series, ref_dtype_per_depth=ref_dtype_per_depth, ref_ih_view=ref_ih_view, ref_ih_coherent=ref_ih_coherent, ref_series_assign=ref_series_assign, ref_has_missing=ref_has_missing, ref_index_equals=ref_index_equals, ref_series_equals=ref_series_equals, ref_set_fold=ref_set_fold, labels_of_array=labels_of_array, ref_map_slice_args=ref_map_slice_args, ref_windows=ref_windows, observed_windows=observed_windows, windows_agree=windows_agree, ref_tb_equals=ref_tb_equals, ref_slices_from_targets=ref_slices_from_targets)
+def ref_frame_equals(a, b, compare_name, compare_dtype, compare_class, skipna):
+    """content equivalence of two Frames, from the property statement (C10)"""
+    import numpy as np
+    if a is b:
+        return True
+    if compare_class and a.__class__ is not b.__class__:
+        return False
+    if a.shape != b.shape:
+        return False
+    if compare_name and a.name != b.name:
+        return False
+    if not ref_index_equals(a.index, b.index, compare_name, compare_dtype, compare_class, skipna):
+        return False
+    if not ref_index_equals(a.columns, b.columns, compare_name, compare_dtype, compare_class, skipna):
+        return False
+
+    class _V:
+        def __init__(self, arr):
+            self.values, self.name = arr, None
+
+        def __len__(self):
+            return len(self.values)
+    for j in range(a.shape[1]):
+        if not ref_index_equals(_V(a.iloc[:, j].values), _V(b.iloc[:, j].values), False, compare_dtype, False, skipna):
+            return False
+    return True
+
+
+REFS = dict(ref_frame_equals=ref_frame_equals, ref_frame_assign_series=ref_frame_assign_series, ref_dtype_per_depth=ref_dtype_per_depth, ref_ih_view=ref_ih_view, ref_ih_coherent=ref_ih_coherent, ref_series_assign=ref_series_assign, ref_has_missing=ref_has_missing, ref_index_equals=ref_index_equals, ref_series_equals=ref_series_equals, ref_set_fold=ref_set_fold, labels_of_array=labels_of_array, ref_map_slice_args=ref_map_slice_args, ref_windows=ref_windows, observed_windows=observed_windows, windows_agree=windows_agree, ref_tb_equals=ref_tb_equals, ref_slices_from_targets=ref_slices_from_targets)
